@@ -34,7 +34,7 @@ import (
 	"verifharness/lib/rfake"
 )
 
-var mode = flag.String("mode", "c01", "c01|c02|c03|c04|c06|c03s")
+var mode = flag.String("mode", "c01", "c01|c02|c03|c04|c06|c03s|c16m")
 
 // ---------------------------------------------------------------- script
 type coll struct {
@@ -610,6 +610,18 @@ func main() {
 		c.Retry = config.RetrySettings{RetryTimes: 1, InitBackOff: 1, MaxBackOff: 1}
 	})
 	reader.SetVerifYieldFunc(yieldHook)
+	if *mode == "c16m" {
+		out := cq.NewOut(a.Out, "From Verif Require Import C16.Manager C16.MCheck.", "mcase", 8)
+		mappingCorpus(out)
+		for id := 0; id < a.N; id++ {
+			ns, nt, os := genMapping(a)
+			runMapping(out, ns, nt, os, "random", id%3 == 2)
+		}
+		if err := out.Flush(); err != nil {
+			panic(err)
+		}
+		return
+	}
 	if *mode == "c03s" {
 		out := cq.NewOut(a.Out, "From Verif Require Import Reader.Model Reader.Conc C03.SCheck.", "ccase", 100)
 		schedCorpus(out)
